@@ -32,6 +32,8 @@ DOCS = {
     "outline": F([S(1), O(1, [(2, ["e1"]), (1, [])]), S(1, tags=["setup"])]),
     "rule-outline": F([S(1, tags=["teardown"]), R([O(1, [(1, []), (2, [])]), S(1)])]),
     "empty-examples": F([S(1), O(1, [(2, []), (0, [])]), S(1)]),       # second Examples table is header-only
+    # addressable entities that own no scenario at all: an outline with a header-only Examples table, a Rule without scenarios
+    "childless": F([S(1), O(1, [(0, [])]), R([]), R([S(1)])]),
     "rules-only": F([R([S(1), O(1, [(2, [])])], tags=["r1"]), R([S(1)])]),
     # @setup/@teardown exempt only the scenario that carries the tag itself, not what inherits it from a feature or rule
     "inherited-setup": F([S(1), S(1, tags=["setup"]), R([S(1), S(1)], tags=["setup"])], tags=["teardown"]),      # nothing directly under the feature
